@@ -24,7 +24,7 @@ ASSUMPTIONS = ["dyadic penalties", "solver returns a feasible point", "igraph co
 
 
 def budget(tier):
-    return 700 if tier == "quick" else 14000
+    return 2500 if tier == "quick" else 25000
 
 
 def gen(rng, index, tier):
@@ -34,8 +34,11 @@ def gen(rng, index, tier):
     raw, meta = lib.gen_dataset(rng, nmax=nmax, mmax=5)
     if config[0] in ("pickaperm", "borda", "bioco") or (config[0] == "bioconsert" and config[1]) and rng.random() < 0.7:
         sch = common.family_scheme(rng, rng.choice(["unifying", "unifying", "induced", "unifying_half", "grid"]))
+    elif config[0] in ("bioconsert", "bioco", "kwik", "copeland"):
+        # local search / heuristics: also schemes whose scores differ by less than the 0.001 tolerances
+        sch = lib.gen_scheme(rng, family=rng.choice(["preset", "grid", "preset_mult", "zeroheavy", "fine", "fine", "cheap_ties"]))
     else:
-        sch = lib.gen_scheme(rng, family=rng.choice(["preset", "grid", "grid", "preset_mult", "zeroheavy"]))
+        sch = lib.gen_scheme(rng, family=rng.choice(["preset", "grid", "grid", "preset_mult", "zeroheavy", "cheap_ties"]))
     amo = rng.random() < 0.5
     if config[0] in ("exact", "cplex") and config[1] == 1:
         amo = True  # optimize=True with all rankings requested is a documented IncompatibleArgumentsException
